@@ -7,11 +7,12 @@ namespace glm
 	{
 		vec<3, T, Q> u(q.x, q.y, q.z);
 		T const Angle = glm::length(u);
+		T const Scale = std::exp(q.w); // exp(w + v) = exp(w) * (cos|v| + v/|v| sin|v|)
 		if (Angle < epsilon<T>())
-			return qua<T, Q>::wxyz(static_cast<T>(1), static_cast<T>(0), static_cast<T>(0), static_cast<T>(0)); // exp(0) is the identity, not the zero quaternion
+			return qua<T, Q>::wxyz(Scale, static_cast<T>(0), static_cast<T>(0), static_cast<T>(0)); // exp(0) is the identity, not the zero quaternion
 
 		vec<3, T, Q> const v(u / Angle);
-		return qua<T, Q>(cos(Angle), sin(Angle) * v);
+		return qua<T, Q>(Scale * cos(Angle), (Scale * sin(Angle)) * v);
 	}
 
 	template<typename T, qualifier Q>
